@@ -196,7 +196,8 @@ func (p c12) Gen(t *rapid.T, env *Env) (*Case, []*Out) {
 				sp.Clock = int64(rapid.IntRange(1, 2000000000).Draw(t, "clock"))
 				sp.Pid = rapid.IntRange(2, 99999).Draw(t, "pid")
 				sp.Host = rapid.SampledFrom([]string{"hostA", "build-7", ""}).Draw(t, "host")
-				sp.Env = map[string]string{"HOME": "/home/u" + strconv.Itoa(sp.Pid), "USER": "u", "TZ": "Asia/Tokyo", "LANG": "tr_TR.UTF-8"}
+				sp.Env = map[string]string{"HOME": "/home/u" + strconv.Itoa(sp.Pid), "USER": "u", "LANG": "tr_TR.UTF-8",
+					"TZ": rapid.SampledFrom([]string{"Asia/Tokyo", "Europe/Berlin", "America/New_York", "Asia/Kolkata"}).Draw(t, "tz")}
 				kinds = append(kinds, "ambient")
 			case 10:
 				// the same files named differently on the command line (x.json, ./x.json, /abs/x.json)
